@@ -19,8 +19,7 @@ ROOT = os.path.dirname(os.path.dirname(os.path.abspath(__file__)))
 PY = os.path.join(ROOT, ".venv", "bin", "python")
 
 
-class Timeout(BaseException):
-    pass
+Timeout = symx.WallTimeout
 
 
 def _alarm(signum, frame):
